@@ -17,7 +17,7 @@ from native.refinterp import ParamStore, eval_circuit, eval_parameter
 
 BOUND = ("cp / tucker: shapes in {(2,3), (3,2,2), (2,2,3,2)} x rank 1..3 x {unweighted, weighted} x four flag settings, every index tuple; tensor_train: "
          "same shapes x rank 1..3, every index tuple: agreement with the reference interpreter and TT-rank of every unfolding <= rank; fully_factorized / hmm: "
-         "3..4 variables, every ordering of 3 variables (+ 6 of 4), per-variable num_categories all different, latent states 1..2; logic: all 256 Boolean functions "
+         "3..4 variables, every ordering of 3 variables (+ 6 of 4), per-variable num_categories all different, latent states 1..2; logic (decision orders: natural, reversed, rotated - variable 0 not always on top): all 256 Boolean functions "
          "of 3 variables and 16 of 2 (thorough: + 200 random of 4) as ordered decision (deterministic, decomposable) formulas, every complete assignment")
 RULE = "one case = (template, arguments, flags, clause); distinct by that tuple"
 
@@ -146,13 +146,14 @@ def run(tier, seed):
         lo, hi = decision(tt[:half], nvars, var + 1), decision(tt[half:], nvars, var + 1)  # x_var = 0 | 1 (x_var is the most significant bit)
         return ("ite", var, hi, lo)
 
-    def build(form, nodes, in_nodes):
+    def build(form, nodes, in_nodes, perm=None):
         if form == "T":
             nd = TopNode()
         elif form == "F":
             nd = BottomNode()
         else:
             _, v, hi, lo = form
+            v = perm[v] if perm is not None else v          # the decision on position v is made on VARIABLE perm[v]
             branches = []
             for lit, sub in ((LiteralNode(v), hi), (NegatedLiteralNode(v), lo)):
                 nodes.append(lit)
@@ -163,7 +164,7 @@ def run(tier, seed):
                     continue
                 c = ConjunctionNode()
                 nodes.append(c)
-                in_nodes[c] = [lit, build(sub, nodes, in_nodes)]
+                in_nodes[c] = [lit, build(sub, nodes, in_nodes, perm)]
                 branches.append(c)
             if len(branches) == 1:
                 return branches[0]
@@ -176,22 +177,31 @@ def run(tier, seed):
     if tier == "thorough":
         rng = np.random.default_rng(20_000 + seed)
         tables += [(4, tuple(int(b) for b in rng.integers(0, 2, 16))) for _ in range(200)]
+    cases = []
     for nvars, tt in tables:
+        # variable orders: the natural one, and others in which variable 0 is NOT the top decision (so that it has to be smoothed in below)
+        perms = [list(range(nvars)), list(range(nvars))[::-1]] + ([[1, 2, 0]] if nvars == 3 else [])
+        for perm in perms:
+            cases.append((nvars, tt, perm))
+    for nvars, tt, perm in cases:
         form = decision(list(tt), nvars)
         if form in ("T", "F"):
             continue
-        case = {"template": "logic", "nvars": nvars, "truth_table": "".join(map(str, tt))}
+        case = {"template": "logic", "nvars": nvars, "truth_table": "".join(map(str, tt)), "decision_order": perm}
 
         def gol():
             nodes, in_nodes = [], {}
-            root = build(form, nodes, in_nodes)
+            root = build(form, nodes, in_nodes, perm)
             used = {id(x) for ins in in_nodes.values() for x in ins} | {id(root)}
             nodes2 = [x for x in nodes if id(x) in used]
             lc = LogicalCircuit(nodes2, in_nodes, [root])
             sc = lc.build_circuit()
             vs = sorted(sc.scope)
             ctx, tc = bridge.compile_circuit(sc)
-            idx = np.array(list(itertools.product([0, 1], repeat=nvars)), dtype=np.int64)
+            bits = np.array(list(itertools.product([0, 1], repeat=nvars)), dtype=np.int64)      # row r: bit p decides position p of the table
+            idx = np.zeros_like(bits)
+            for pp in range(nvars):
+                idx[:, perm[pp]] = bits[:, pp]
             got = bridge.eval_compiled(tc, idx, "sum-product")[:, 0, 0]
             # enforce_smoothness extends the circuit to the variables of the formula; variables the formula does not mention stay out of scope
             ck.eq("logic_truth_value", case, got, np.array(tt, dtype=float), rtol=0, atol=1e-12)
